@@ -2,7 +2,7 @@
 //!   c11 record <cases.ndjson> <trace.ndjson> <maxperm> <twogroups> <twoperms>
 //!   c11 print  <cases.ndjson> <n> <perm> <mask> <style>     show the rendering of one variant (debugging / replays)
 //!   c11 probe  <dir>                                         compile + run dir/main.sy (+ other .sy files)
-//! Case:   {fam:"shape"|"pos", id:[{kind,j}] | {pos,user}, n, class, tops:[top-level nodes in canonical order, start last], out, status}
+//! Case:   {fam:"shape"|"pos"|"unspec"|"type", id:[{kind,j}] | {pos,user} | {shape,use}, n, class, tops:[top-level nodes in canonical order, start last], out, status}
 //! Record: {fam, id, n, class, tops, obs:[{class, ekind, nerr, bytes, prints, status}], variants:[[perm, mask, style, obs#]], detail:{..}}
 //!   perm  = index of the permutation of the NS statements in factoradic (Lehmer) order: 0 = canonical, NS!-1 = reversed
 //!   mask  = bit c set: canonical statement c (0-based) lives in other.sy (start, the last statement, never does); 0 = one file
@@ -104,7 +104,7 @@ fn refs(v: &Value, ids: &mut BTreeSet<i64>, types: &mut BTreeSet<String>) {
                 Some("var") => {
                     ids.insert(m["b"].as_i64().unwrap());
                 }
-                Some("tname") => {
+                Some("tname") | Some("tapp") => {
                     types.insert(m["n"].as_str().unwrap().to_string());
                 }
                 Some("blob") => {
@@ -129,7 +129,7 @@ fn qualify(v: &mut Value, foreign: &BTreeSet<String>, ns: &str) {
     match v {
         Value::Object(m) => {
             let field = match m.get("k").and_then(|k| k.as_str()) {
-                Some("tname") => Some("n"),
+                Some("tname") | Some("tapp") => Some("n"),
                 Some("blob") => Some("name"),
                 Some("variant") => Some("enum"),
                 _ => None,
